@@ -139,7 +139,7 @@ def plan(tier, seed):
     specs = []
     for hs in (0, 1, 4242):
         for s in range(nsh):
-            specs.append(dict(tops=tops[s::nsh], part=s, hashseed=hs, budget_s=tier_value(tier, 50, 420)))
+            specs.append(dict(tops=tops[s::nsh], part=s, hashseed=hs, budget_s=tier_value(tier, 180, 600)))
     return specs
 
 
